@@ -24,7 +24,8 @@ ANCHORS = ["coxeter.families.tabulated_shape_family:TabulatedGSDShapeFamily.get_
            "coxeter.families.tabulated_shape_family:TabulatedGSDShapeFamily.__iter__",
            "coxeter.families.doi_data_repositories:_doi_shape_collection_factory", "coxeter.shape_getters:from_gsd_type_shapes"]
 REQUIRED_MONITORS = ["builds-ConvexPolyhedron", "textbook-VEF", "unit-volume", "equal-edges-regular-faces", "catalan-insphere",
-                     "iteration=names=get_shape", "repository-matches-cited-family", "unknown-key-KeyError", "entry-counts"]
+                     "iteration=names=get_shape", "repository-matches-cited-family", "unknown-key-KeyError", "entry-counts",
+                     "iteration-passes-independent", "regenerated-after-caller-changed-earlier-result"]
 EXHAUSTIVE = True
 VEF = {
     "Tetrahedron": (4, 6, 4), "Cube": (8, 12, 6), "Octahedron": (6, 12, 8), "Dodecahedron": (20, 30, 12), "Icosahedron": (12, 30, 20),
@@ -142,6 +143,21 @@ def run_case(i, rng, rec, tier, state):
                         break
             rec.check("iteration=names=get_shape", bool(ok and same), f"{fam}/iteration-differs-from-names-or-get_shape",
                       {"family": fam, "iter_names": [k for k, _ in it][:10], "names": names[:10]})
+            # iteration histories: every iteration over the family is a pass of its own (interleaved, nested, resumed)
+            try:
+                z = [(k1, k2) for (k1, _), (k2, _) in zip(F, F)]
+                it1 = iter(F)
+                head = [next(it1)[0] for _ in range(min(2, len(names)))]
+                full_between = [k for k, _ in F]
+                rest = [k for k, _ in it1]
+                again = [k for k, _ in F]
+                okh = (z == [(k, k) for k in names] and head + rest == names and full_between == names and again == names)
+                rec.check("iteration-passes-independent", bool(okh), f"{fam}/interleaved-iterations-share-state",
+                          lambda: {"family": fam, "zip_pairs": z[:4], "n_zip": len(z), "head": head, "n_rest": len(rest),
+                                   "n_between": len(full_between), "n_again": len(again), "n_names": len(names)})
+            except Exception as e:
+                rec.violation("iteration-passes-independent", f"{fam}/interleaved-iteration-raises-{type(e).__name__}",
+                              {"family": fam, "exc": repr(e)[:200]})
             rec.nontriv(fam, "family")
             rec.sample({"family": fam, "entries": len(names), "first": names[:3]})
             return
@@ -153,6 +169,20 @@ def run_case(i, rng, rec, tier, state):
             return
         spec = F.data[name]
         V = np.asarray(shp.vertices, float)
+        # the table is a source of fresh solids: resizing / moving the one received does not change what the name gives next
+        try:
+            with contracts.quiet():
+                first = F.get_shape(name)
+                V1 = np.array(first.vertices, float, copy=True)
+                first.volume = 3.0 * float(first.volume)
+                first.centroid = np.asarray(first.centroid, float) + np.array([0.5, -1.0, 2.0])
+                second = F.get_shape(name)
+                V2 = np.asarray(second.vertices, float)
+            rec.check("regenerated-after-caller-changed-earlier-result",
+                      second is not first and V2.shape == V1.shape and bool(np.array_equal(V1, V2)) and not np.shares_memory(first.vertices, second.vertices),
+                      f"{fam}/get_shape-returns-the-callers-modified-shape", lambda: dict(info, first_call=V1[:2], second_call=V2[:2]))
+        except Exception as e:
+            rec.note(f"{fam}: regeneration history not completed ({type(e).__name__})")
         rec.check("builds-ConvexPolyhedron", type(shp) is cs.ConvexPolyhedron and len(V) == len(spec["vertices"]),
                   f"{fam}/entry-is-not-a-ConvexPolyhedron-of-its-vertices", dict(info, type=type(shp).__name__))
         h = geom.hull_facets(V, band=1e-7)
